@@ -45,6 +45,7 @@ def run(ctx):
                    'a path to the return SKIPS the broadcast send (publication made conditional): attached subscribers miss a frame the history replays to later ones'), line=pu.line)
 
     # ---------------------------------------------------------------- C06.4
+    ctx.rule('C06.5', 'the thread handler\'s live filter is only ever steered by its own stream: any state the filter closures keep from one broadcast frame to the next (writes through the closure environment) is updated only behind the comparison of Event.session_id with the thread id — the channel is store-wide, so a cursor advanced by a foreign frame hides this thread\'s next frames.')
     ctx.rule('C06.4', 'publish in seq order: every broadcast of a thread frame in ContinuityStore happens inside the live range of the next_seq guard that numbered it (a frame published after the guard was released can be overtaken by a later seq, and a live subscriber sees them out of order).')
     from .c01 import SEQ_GUARD, STORE
     nsend = 0
@@ -151,3 +152,24 @@ def run(ctx):
                 'the frame with seq == last is treated as already delivered' if good else 'OFF BY ONE: the frame with seq == last history seq is on the wrong side — it is delivered twice (or the first live frame is lost)'), line=ln)
         if any(re.search(r'ContinuityStore::replay_events$', sn.callee) for sn in snaps):
             ctx.ob('C06.3', f, 'stream-id-filter', bool(idcmp), 'the thread handler compares Event.session_id with the thread id: %s' % bool(idcmp), line=idcmp[0][1] if idcmp else f.line)
+            # C06.5: the broadcast channel of the thread handler carries the frames of every stream of the store; whatever the
+            # live filter remembers from one frame to the next (a cursor, a counter: a write through the closure environment,
+            # which outlives the call) may only be updated by a frame that already passed the stream-id comparison
+            cor = set(P.coroutines())
+            nst = 0
+            for g in fam:
+                if '{closure' not in g.path or g.path in cor:
+                    continue
+                idb = [c_.bb for c_ in g.calls(r'PartialEq(::|.*>::)(ne|eq)$') if any((lambda src: src[0] == 'local' and any(isinstance(pp, dict) and pp.get('n') == 'session_id' and pp.get('o') == 'rip_kernel::Event' for pp in src[2]))(g.origin(a)) for a in c_.args)]
+                for bi in sorted(g.reachable()):
+                    if g.is_cleanup(bi):
+                        continue
+                    for st in g.blocks[bi]['s']:
+                        d = st.get('d') or {}
+                        if d.get('l') == 1 and d.get('p') and 'rv' in st:
+                            nst += 1
+                            okst = any(g.dom(b_, bi) and b_ != bi for b_ in idb)
+                            ctx.ob('C06.5', g, 'filter-state-only-from-own-frames', okst,
+                                   'state the live filter keeps between frames is written %s' % ('only after the stream-id comparison' if okst else
+                                   'BEFORE / WITHOUT the stream-id comparison: frames of other threads on the shared channel move it, and this thread\'s own later frames (lower seq) are then dropped or repeated'), line=st.get('ln'))
+            ctx.ob('C06.5', f, 'filter-state-scanned', True, 'the live filter of the thread handler keeps %d piece(s) of state between frames' % nst, line=f.line)
